@@ -126,6 +126,15 @@ def run(ctx, anchors=None):
                     srcs[d["n"]] = astq.estr(d["init"])
     ctx.inst(srcs.get("h_l", "").replace("this->", "") in ("m_l->m_hash",) and srcs.get("h_r", "").replace("this->", "") in ("m_r->m_hash",), "R06.1", "branch-children", brc.loc(),
              "the two streamed hashes are the left and right child hashes")
+    # the constructor may link the children (m_parent) but must not modify them otherwise: Prove() later reads the children's
+    # own hashes as sibling hashes
+    ws = prog.write_sets().get(brc.id, {})
+    child_writes = sorted({astq.path_str(p_) for p_ in ws if (p_[0][0] == "parm" and len(p_) > 1 and [x for x in p_[1:] if x not in ("*", "[]")][-1:] != ["m_parent"])
+                           or (p_[0] == ("this",) and any(x in ("m_l", "m_r") for x in p_[1:]) and [x for x in p_[1:] if x not in ("*", "[]")][-1] not in ("m_l", "m_r", "m_parent"))})
+    ctx.site()
+    ctx.inst(not child_writes, "R06.1", "branch-does-not-modify-children", brc.loc(),
+             "the TapBranch constructor writes only m_parent of its children",
+             "the TapBranch constructor modifies its children (%s): Prove() then emits the node's own hash instead of the sibling's whenever the two were swapped" % ", ".join(child_writes))
     # tweak
     tw = None
     for n in tapmain.nodes():
@@ -260,6 +269,7 @@ def ctl_init_node(func):
 
 
 MUTANTS = [
+    dict(name="branch-sorts-children-in-place", file="tap.cpp", find="        auto h_l = m_l->m_hash;\n        auto h_r = m_r->m_hash;", replace="        auto& h_l = m_l->m_hash;\n        auto& h_r = m_r->m_hash;", expect=["R06.1:branch-does-not-modify-children"]),
     dict(name="tag-typo-tap", file="tap.cpp", find="HasherTapBranch = TaggedHash(\"TapBranch\")", replace="HasherTapBranch = TaggedHash(\"TapBranches\")", expect=["R06.1:tag=HasherTapBranch"]),
     dict(name="leaf-version-c1", file="tap.cpp", find="hasher << static_cast<uint8_t>(0xc0) << script;", replace="hasher << static_cast<uint8_t>(0xc1) << script;", expect=["R06.1:leaf-stream"]),
     dict(name="branch-larger-first", file="tap.cpp", find="if (std::lexicographical_compare(h_r.begin(), h_r.end(), h_l.begin(), h_l.end())) {", replace="if (std::lexicographical_compare(h_l.begin(), h_l.end(), h_r.begin(), h_r.end())) {", expect=["R06.1:branch-smaller-first"]),
